@@ -103,7 +103,9 @@ Loaded(P) == Reach(P, {P.files[1].name})
 \* env: sequence of scopes, innermost last; scope = [bind : name -> label, taint : set of names]
 \* (taint marks the names of `for` pattern variables after their loop: the uses that a loop
 \*  variable surviving its loop would capture; used only to key that defect family)
-EmptyScope == [bind |-> <<>>, taint |-> {}]
+\* infer: names bound to a value whose type is only inferred (a match binding of an un-annotated lambda); a `for` over `[n]`
+\* needs the element type to be known when the loop is checked, so such names are not used in a loop header
+EmptyScope == [bind |-> <<>>, taint |-> {}, infer |-> {}]
 Resolve(C, env, n) ==
   LET idx == {i \in DOMAIN env : n \in DOMAIN env[i].bind}
   IN IF idx # {} THEN [t |-> "local", file |-> "", name |-> env[MaxOf(idx)].bind[n]]
@@ -111,6 +113,9 @@ Resolve(C, env, n) ==
           IN IF V = {} THEN Other("unres")
              ELSE IF Cardinality(V) = 1 THEN CHOOSE d \in V : TRUE
              ELSE Other("clash")
+Inferred(env, n) ==
+  LET idx == {i \in DOMAIN env : n \in DOMAIN env[i].bind}
+  IN idx # {} /\ n \in env[MaxOf(idx)].infer
 Tainted(env, n) ==
   LET J == {i \in DOMAIN env : n \in DOMAIN env[i].bind \/ n \in env[i].taint}
   IN J # {} /\ n \in env[MaxOf(J)].taint
@@ -128,7 +133,7 @@ Lam(label) == "(z: int) -> println(\"" \o label \o "\")"
 LineNo(st) == ToString(Len(st.lines) + 1)
 Bind(st, n, label) ==
   LET k == Len(st.env)
-  IN [st EXCEPT !.env[k].bind = (n :> label) @@ @, !.env[k].taint = @ \ {n}]
+  IN [st EXCEPT !.env[k].bind = (n :> label) @@ @, !.env[k].taint = @ \ {n}, !.env[k].infer = @ \ {n}]
 Push(st, sc) == [st EXCEPT !.env = Append(@, sc)]
 Pop(st) == [st EXCEPT !.env = SubSeq(@, 1, Len(@) - 1)]
 Tag(st, t) == [st EXCEPT !.tags = Append(@, t)]
@@ -191,7 +196,8 @@ Walk1(C, s, st) ==
         LET ln == LineNo(st)
             label == "L" \o ln \o "." \o s.b
             pat == IF s.b = "" THEN "_" ELSE s.b
-            patScope == IF s.b = "" THEN EmptyScope ELSE [bind |-> (s.b :> label), taint |-> {}]
+            patScope == IF s.b = "" THEN EmptyScope
+                        ELSE [bind |-> (s.b :> label), taint |-> {}, infer |-> IF s.kind \in {"match", "match2"} THEN {s.b} ELSE {}]
             letFirst(x) == IF s.b = "" THEN x ELSE Bind(Put(x, "let " \o s.b \o ": int -> void = " \o Lam("L" \o LineNo(x) \o "." \o s.b)),
                                                         s.b, "L" \o LineNo(x) \o "." \o s.b)
         IN CASE s.kind = "block" ->
@@ -208,11 +214,11 @@ Walk1(C, s, st) ==
                   \* variable carries that binding's label
                   LET r == "r" \o ln
                       outer == IF s.b = "" THEN Other("unres") ELSE Resolve(C, st.env, s.b)
-                      self == outer.t = "local" /\ ~Tainted(st.env, s.b) /\ Len(st.lines) % 2 = 0
+                      self == outer.t = "local" /\ ~Tainted(st.env, s.b) /\ ~Inferred(st.env, s.b) /\ Len(st.lines) % 2 = 0
                       a == IF self THEN Put(st, "for " \o s.b \o " in [" \o s.b \o "] {")
                            ELSE Put(Put(st, "let " \o r \o ": array<int -> void> = [" \o Lam(label) \o "]"),
                                     "for " \o pat \o " in " \o r \o " {")
-                      sc == IF self THEN [bind |-> (s.b :> outer.name), taint |-> {}] ELSE patScope
+                      sc == IF self THEN [bind |-> (s.b :> outer.name), taint |-> {}, infer |-> {}] ELSE patScope
                       b == Pop(Put(WalkS(C, s.body, Push(IF self THEN Tag(a, "for-self") ELSE a, sc)), "}"))
                       k == Len(b.env)
                   IN IF s.b = "" THEN b ELSE [b EXCEPT !.env[k].taint = @ \cup {s.b}]
@@ -251,7 +257,7 @@ WalkFns(C, fns, st) ==
   IF fns = <<>> THEN [st |-> st, declout |-> C.declout]
   ELSE LET f == fns[1]
            a == Put(st, "fn " \o f.name \o "(" \o f.param \o ": int -> void) {")
-           b == WalkS(C, f.body, [a EXCEPT !.env = <<[bind |-> (f.param :> "arg"), taint |-> {}], EmptyScope>>, !.out = ""])
+           b == WalkS(C, f.body, [a EXCEPT !.env = <<[bind |-> (f.param :> "arg"), taint |-> {}, infer |-> {}], EmptyScope>>, !.out = ""])
            c == [Put(b, "}") EXCEPT !.env = st.env, !.out = st.out]
            d == (Fn(C.F.name, f.name) :> b.out) @@ C.declout
        IN WalkFns([C EXCEPT !.declout = d], Tail(fns), c)
